@@ -113,6 +113,8 @@ type Op struct {
 
 // H is one running history.
 type H struct {
+	uncertainRead bool // set by Expect when the read range holds a cell of a write whose acknowledgement was lost
+
 	Srv   *bb.Server
 	St    *model.Store
 	C     *ev.Case
@@ -362,7 +364,12 @@ func (h *H) Expect(r Read) map[string][]Row {
 					continue
 				}
 				if c.MayAbsent || len(c.Alts) != 1 {
-					panic("hist: uncertain cell in Expect")
+					// a cell touched by a write whose acknowledgement was lost (the server died under it): the exact
+					// comparison of this read is not defined; CheckRead skips it (counted), full dumps use Store.Compare
+					h.uncertainRead = true
+					if len(c.Alts) == 0 {
+						continue
+					}
 				}
 				fs[f] = c.Alts[0]
 			}
@@ -402,7 +409,12 @@ func (h *H) CheckRead(r Read) string {
 		}
 		return "query failed: " + err.Error()
 	}
+	h.uncertainRead = false
 	exp := h.Expect(r)
+	if h.uncertainRead {
+		h.C.Class("read-skipped(uncertain-cells-in-range)")
+		return ""
+	}
 	if res.Err != "" {
 		if len(exp) == 0 && (strings.Contains(res.Err, "measurement not found") || strings.Contains(res.Err, "not found")) {
 			return ""
